@@ -138,6 +138,29 @@ theorem inv_error {st : St} (i : Bool) (h : Inv st) (hw : st.writer = none ∨ s
 
 /-! ### writes while the writer is open -/
 
+/-- no `complete` call recorded -/
+def noComplete : List WCall → Prop
+  | [] => True
+  | .complete :: _ => False
+  | _ :: r => noComplete r
+
+
+/-- fields of `St` that the write path never touches -/
+structure SameSt (st st' : St) : Prop where
+  md5Check : st'.md5Check = st.md5Check
+  md5 : st'.md5 = st.md5
+  tl : st'.tl = st.tl
+  cenc : st'.cenc = st.cenc
+  blocks : st'.blocks = st.blocks
+  nbAlloc : st'.nbAlloc = st.nbAlloc
+  totalAlloc : st'.totalAlloc = st.totalAlloc
+
+theorem SameSt.refl (st : St) : SameSt st st := ⟨rfl, rfl, rfl, rfl, rfl, rfl, rfl⟩
+theorem SameSt.trans {a b c : St} (h1 : SameSt a b) (h2 : SameSt b c) : SameSt a c :=
+  ⟨h2.md5Check.trans h1.md5Check, h2.md5.trans h1.md5, h2.tl.trans h1.tl, h2.cenc.trans h1.cenc,
+   h2.blocks.trans h1.blocks, h2.nbAlloc.trans h1.nbAlloc, h2.totalAlloc.trans h1.totalAlloc⟩
+
+
 /-- `st'` is `st` after some `write` calls (and block-writer bookkeeping): everything the invariant reads is unchanged,
     an open writer stays open -/
 structure Wr (st st' : St) : Prop where
@@ -148,12 +171,15 @@ structure Wr (st st' : St) : Prop where
   fdt : st'.fdtId = st.fdtId
   bw : st.bw.isSome → st'.bw.isSome
   ps : pstateOf st.out = some .opened → pstateOf st'.out = some .opened
+  same : SameSt st st'
+  nc : noComplete st.out → noComplete st'.out
 
-theorem Wr.refl (st : St) : Wr st st := ⟨rfl, rfl, rfl, rfl, rfl, id, id⟩
+theorem Wr.refl (st : St) : Wr st st := ⟨rfl, rfl, rfl, rfl, rfl, id, id, SameSt.refl _, id⟩
 
 theorem Wr.trans {a b c : St} (h1 : Wr a b) (h2 : Wr b c) : Wr a c :=
   ⟨h2.writer.trans h1.writer, h2.cache.trans h1.cache, h2.state.trans h1.state, h2.off.trans h1.off,
-   h2.fdt.trans h1.fdt, fun h => h2.bw (h1.bw h), fun h => h2.ps (h1.ps h)⟩
+   h2.fdt.trans h1.fdt, fun h => h2.bw (h1.bw h), fun h => h2.ps (h1.ps h), h1.same.trans h2.same,
+   fun h => h2.nc (h1.nc h)⟩
 
 theorem Inv.wr {st st' : St} (h : Inv st) (ho : st.writer = some .opened) (w : Wr st st') :
     Inv st' ∧ st'.writer = some .opened := by
@@ -171,9 +197,10 @@ theorem Inv.wr {st st' : St} (h : Inv st) (ho : st.writer = some .opened) (w : W
   · rw [w.writer, w.fdt]; exact h.fdt
 
 theorem wr_wWrite (P : Params) (st : St) (sbn : Nat) (d : Bytes) : Wr st (wWrite P st sbn d).1 := by
-  refine ⟨rfl, rfl, rfl, rfl, rfl, id, ?_⟩
-  intro h
-  simp [wWrite, pstateOf_cons, evOf, h, WriterProto.step]
+  refine ⟨rfl, rfl, rfl, rfl, rfl, id, ?_, ⟨rfl, rfl, rfl, rfl, rfl, rfl, rfl⟩, ?_⟩
+  · intro h
+    simp [wWrite, pstateOf_cons, evOf, h, WriterProto.step]
+  · intro h; simpa [wWrite, noComplete] using h
 
 theorem wr_decoderRead (P : Params) (fuel : Nat) (st : St) (w : BW) {st' : St} {w' : BW} {b : Bool}
     (h : decoderRead P fuel st w = .ok (st', w', b)) : Wr st st' := by
@@ -227,7 +254,7 @@ theorem wr_decodeWritePkt (P : Params) (st : St) (w : BW) (pkt : Bytes) {st' : S
   · exact wr_dwLoop _ _ _ _ _ _ _ h
 
 theorem wr_setBw (st : St) (w : BW) : Wr st { st with bw := some w } :=
-  ⟨rfl, rfl, rfl, rfl, rfl, fun _ => rfl, id⟩
+  ⟨rfl, rfl, rfl, rfl, rfl, fun _ => rfl, id, ⟨rfl, rfl, rfl, rfl, rfl, rfl, rfl⟩, id⟩
 
 theorem wr_bwData (P : Params) (st : St) (w : BW) (data : Bytes) {st' : St} {w' : BW} {b : Bool}
     (h : bwData P st w data = .ok (st', w', b)) : Wr st st' := by
